@@ -2,6 +2,8 @@
 
 K1   symbolic schedules of k<=3 instances of the real ``_patched_build_char_map`` context manager at
      enter/exit granularity, each body optionally failing
+K1p  the same critical section run by k<=2 (3) real threads under a controlled scheduler that switches threads
+     INSIDE __enter__ / __exit__ (line and byte-code-operation granularity, bounded number of pre-emptions)
 K2a  ``_ttf_get_glyph_features`` / ``_FONT_CACHE``: symbolic glyph-id lists, history of <=2 (3) calls
 K2b  ``_get_round_keys`` / ``_ROUND_KEY_CACHE``: fully symbolic keys, the solver decides which keys coincide
 K2m  lru_cache'd router / content-type lookups and ``_get_type_registry`` under lookup histories
@@ -204,6 +206,72 @@ class _BodyFailed(Exception):
     pass
 
 
+def _charmap_layout(ctx, st, api, P):
+    """install the pypdf module layout ``api`` (stubs registered on the ExitStack ``st``) and return
+    (probes, fake_snap, call_installed): probes = [(module, attr, original)] = WHERE the library is expected to
+    patch (only used while threads are inside; the final comparison is over every attribute of the modules),
+    fake_snap = [(namespace, attributes before)] for the fake layouts, call_installed(agg) = behavioural probe
+    (fake layouts): number of digit-map patches one char-map call gets (-1: wrong result)"""
+    import pypdf
+    pe = _pe()
+    calls = {"patch": 0}
+
+    def counting_patch(font_map, font_dict):
+        calls["patch"] += 1
+
+    probes = []          # (module, attr, original)
+    fake_mods = []
+    if api == "installed":
+        # the pypdf that is really installed; originals = the pristine objects
+        try:
+            targets, _ = pe._get_pypdf_char_map_patcher()
+        except AttributeError:
+            targets = []
+        for mod, name in targets:
+            probes.append((mod, name, P.snap[mod.__name__][name]))
+    elif api == "new":
+        # layout of pypdf >= 6.6: get_encoding lives in _cmap and is re-exported by _font
+        def get_encoding(ft):
+            return "enc", {"a": "b"}
+        fc = types.SimpleNamespace(__name__="pypdf._cmap", get_encoding=get_encoding)
+        ff = types.SimpleNamespace(__name__="pypdf._font", get_encoding=get_encoding)
+        st.enter_context(ctx.stub(pypdf, _cmap=fc, _font=ff))
+        st.enter_context(ctx.stub(pe, _patch_font_digit_map=counting_patch))
+        probes = [(fc, "get_encoding", get_encoding), (ff, "get_encoding", get_encoding)]
+        fake_mods = [fc, ff]
+    elif api == "legacy":
+        def build_char_map(font_name, space_width, obj):
+            return "sub", 1.0, "enc", {"a": "b"}, {"/F": 1}
+        fc = types.SimpleNamespace(__name__="pypdf._cmap")
+        ff = types.SimpleNamespace(__name__="pypdf._font")
+        fp = types.SimpleNamespace(__name__="pypdf._page", build_char_map=build_char_map)
+        st.enter_context(ctx.stub(pypdf, _cmap=fc, _font=ff, _page=fp))
+        st.enter_context(ctx.stub(pe, _patch_font_digit_map=counting_patch))
+        probes = [(fp, "build_char_map", build_char_map)]
+        fake_mods = [fc, ff, fp]
+    else:   # "none": neither API present -> the manager must not patch and must not fail
+        fc = types.SimpleNamespace(__name__="pypdf._cmap")
+        ff = types.SimpleNamespace(__name__="pypdf._font")
+        fp = types.SimpleNamespace(__name__="pypdf._page")
+        st.enter_context(ctx.stub(pypdf, _cmap=fc, _font=ff, _page=fp))
+        fake_mods = [fc, ff, fp]
+    fake_snap = [(m, dict(vars(m))) for m in fake_mods]
+
+    def call_installed(agg=min):
+        depths = []
+        for mod, name, orig in probes:
+            calls["patch"] = 0
+            f = getattr(mod, name)
+            out = f({"/F": 1}) if name == "get_encoding" else f("F1", 1.0, {"/F": 1})
+            want = orig({"/F": 1}) if name == "get_encoding" else orig("F1", 1.0, {"/F": 1})
+            if out != want:
+                return -1
+            depths.append(calls["patch"])
+        return agg(depths)
+
+    return probes, fake_snap, call_installed
+
+
 def k1_schedules(ctx):
     """k instances ("threads") of the real context manager; the schedule is the order of their
     enter / exit events.  Oracles, from the property text:
@@ -221,62 +289,8 @@ def k1_schedules(ctx):
     fails = [ctx.flag(f"body_fails{t}") for t in range(k)]
     nested_only = (not ctx.perturb) and any(f in (ctx.params.get("known_active") or ()) for f in K1_FINDINGS)
 
-    calls = {"patch": 0}
-
-    def counting_patch(font_map, font_dict):
-        calls["patch"] += 1
-
     with contextlib.ExitStack() as st:
-        probes = []          # (module, attr, original)
-        if api == "installed":
-            # the pypdf that is really installed; originals = the pristine objects
-            try:
-                targets, _ = pe._get_pypdf_char_map_patcher()
-            except AttributeError:
-                targets = []
-            # (the list of targets is only used to know WHERE to look while threads are inside;
-            #  the final comparison is over every attribute of the three modules)
-            for mod, name in targets:
-                probes.append((mod, name, P.snap[mod.__name__][name]))
-        elif api == "new":
-            # layout of pypdf >= 6.6: get_encoding lives in _cmap and is re-exported by _font
-            def get_encoding(ft):
-                return "enc", {"a": "b"}
-            fc = types.SimpleNamespace(__name__="pypdf._cmap", get_encoding=get_encoding)
-            ff = types.SimpleNamespace(__name__="pypdf._font", get_encoding=get_encoding)
-            st.enter_context(ctx.stub(pypdf, _cmap=fc, _font=ff))
-            st.enter_context(ctx.stub(pe, _patch_font_digit_map=counting_patch))
-            probes = [(fc, "get_encoding", get_encoding), (ff, "get_encoding", get_encoding)]
-        elif api == "legacy":
-            def build_char_map(font_name, space_width, obj):
-                return "sub", 1.0, "enc", {"a": "b"}, {"/F": 1}
-            fc = types.SimpleNamespace(__name__="pypdf._cmap")
-            ff = types.SimpleNamespace(__name__="pypdf._font")
-            fp = types.SimpleNamespace(__name__="pypdf._page", build_char_map=build_char_map)
-            st.enter_context(ctx.stub(pypdf, _cmap=fc, _font=ff, _page=fp))
-            st.enter_context(ctx.stub(pe, _patch_font_digit_map=counting_patch))
-            probes = [(fp, "build_char_map", build_char_map)]
-        else:   # "none": neither API present -> the manager must not patch and must not fail
-            fc = types.SimpleNamespace(__name__="pypdf._cmap")
-            ff = types.SimpleNamespace(__name__="pypdf._font")
-            fp = types.SimpleNamespace(__name__="pypdf._page")
-            st.enter_context(ctx.stub(pypdf, _cmap=fc, _font=ff, _page=fp))
-            probes = []
-        fakes = {"new": lambda: [fc, ff], "legacy": lambda: [fc, ff, fp], "none": lambda: [fc, ff, fp]}
-        fake_snap = [(m, dict(vars(m))) for m in fakes.get(api, lambda: [])()]
-
-        def call_installed(agg=min):
-            """behavioural probe (fake layouts): number of digit-map patches one char-map call gets"""
-            depths = []
-            for mod, name, orig in probes:
-                calls["patch"] = 0
-                f = getattr(mod, name)
-                out = f({"/F": 1}) if name == "get_encoding" else f("F1", 1.0, {"/F": 1})
-                want = orig({"/F": 1}) if name == "get_encoding" else orig("F1", 1.0, {"/F": 1})
-                if out != want:
-                    return -1
-                depths.append(calls["patch"])
-            return agg(depths)
+        probes, fake_snap, call_installed = _charmap_layout(ctx, st, api, P)
 
         lib_before = _lib_state(pe)
         cms = [None] * k
@@ -352,6 +366,442 @@ def _k1_parts(tier):
     K = 3 if tier == "quick" else 4
     return [{"api": a, "K": K, "judge": j} for a in ("installed", "new", "legacy", "none")
             for j in ("residue", "in_force") if not (a == "none" and j == "in_force")]
+
+
+# ---------------------------------------------------------------------------------------
+# K1p pre-emption INSIDE the patch / restore critical section (controlled scheduler over real threads)
+# ---------------------------------------------------------------------------------------
+
+class _Abort(BaseException):
+    """ends a scheduled thread whose harness no longer answers"""
+
+
+# byte-code operations that only touch the evaluation stack / the frame's own fast locals / fresh objects: a
+# pre-emption immediately before one of them is indistinguishable from one before the next shared access, so
+# the instruction-granular scheduler offers no switching point there
+_INVISIBLE_OPS = frozenset("""LOAD_FAST LOAD_FAST_CHECK LOAD_FAST_AND_CLEAR STORE_FAST DELETE_FAST LOAD_CONST POP_TOP
+PUSH_NULL COPY SWAP NOP RESUME CACHE EXTENDED_ARG JUMP_FORWARD JUMP_BACKWARD JUMP_BACKWARD_NO_INTERRUPT
+POP_JUMP_IF_FALSE POP_JUMP_IF_TRUE POP_JUMP_IF_NONE POP_JUMP_IF_NOT_NONE BUILD_TUPLE BUILD_LIST BUILD_MAP BUILD_SET
+BUILD_STRING BUILD_SLICE LOAD_CLOSURE MAKE_FUNCTION MAKE_CELL COPY_FREE_VARS RETURN_VALUE RETURN_CONST KW_NAMES IS_OP
+UNARY_NOT END_FOR POP_EXCEPT PUSH_EXC_INFO RERAISE CHECK_EXC_MATCH RETURN_GENERATOR COMPARE_OP UNPACK_SEQUENCE
+""".split())
+
+
+class _SchedLock:
+    """threading.Lock / RLock stand-in for threads run by ``_Sched``: mutual exclusion as documented for the
+    primitive (one owner; RLock: re-entrant for the owner), but a thread that has to wait hands control back to
+    the scheduler instead of blocking the process.  ``excl=False`` (twin) makes it exclude nothing."""
+
+    def __init__(self, sched, reentrant, excl=True):
+        self.sched, self.reentrant, self.excl = sched, reentrant, excl
+        self.owner, self.count = None, 0
+
+    def free_for(self, t):
+        return (not self.excl) or self.owner is None or (self.reentrant and self.owner == t)
+
+    def acquire(self, blocking=True, timeout=-1):
+        s = self.sched
+        t = s.current()
+        while True:
+            if s.aborting or self.free_for(t):
+                self.owner = t
+                self.count += 1
+                return True
+            if t is None or not blocking or timeout >= 0:
+                return False        # try-lock / timed wait: the lock is held, the wait expires
+            s.block(t, self)
+
+    def release(self):
+        if self.count == 0:
+            if self.sched.aborting or not self.excl:
+                return
+            raise RuntimeError("release unlocked lock")
+        self.count -= 1
+        if self.count == 0:
+            self.owner = None
+
+    def locked(self):
+        return self.count > 0
+
+    def __enter__(self):
+        return self.acquire()
+
+    def __exit__(self, *exc):
+        self.release()
+
+
+def _warm_opcode_tracing():
+    # CPython 3.12: per-instruction events start to be delivered only after f_trace_opcodes was set once under an
+    # active trace function; done before the real trace function is installed so that the first schedule of a
+    # process sees the same events as every later one
+    import sys
+
+    def f():
+        return None
+
+    def tr(frame, event, arg):
+        frame.f_trace_opcodes = True
+        return tr
+    sys.settrace(tr)
+    f()
+    sys.settrace(None)
+
+
+class _Sched:
+    """controlled scheduler: k real threads, of which exactly one runs at any time.  A *point* is reached by a
+    thread immediately before every source line ("line") or every shared-state byte-code operation ("opcode") it
+    is about to execute in one of ``files`` (the library module under test), before its body, when it has to wait
+    for a ``_SchedLock``, and when it ends.  The harness (main thread) decides which enabled thread runs next and
+    past how many points (``run``); the thread then parks at that point - or earlier at its body / a lock it has
+    to wait for / its end - and hands control back."""
+    TIMEOUT = 120
+
+    def __init__(self, k, gran, files):
+        import _thread
+        import threading
+        self.k, self.gran, self.files = k, gran, set(files)
+        self.go = [_thread.allocate_lock() for _ in range(k)]
+        self.back = _thread.allocate_lock()
+        for lk in self.go + [self.back]:
+            lk.acquire()
+        self.done = [False] * k
+        self.started = [False] * k
+        self.blocked = [None] * k
+        self.muted = [False] * k
+        self.pos = [("start",)] * k
+        self.err = [None] * k
+        self.count = [0] * k            # points reached in the current run
+        self.budget = [0] * k           # park at this many points (0: run to the body / a lock wait / the end)
+        self.aborting = False
+        self.tls = threading.local()
+        self.threads = []
+        self.reports = []
+        self._codes = {}
+
+    def current(self):
+        return getattr(self.tls, "t", None)
+
+    # ---- running in the scheduled threads -----------------------------------------------
+    def pause(self, t, pos, forced=False):
+        if self.aborting:
+            return
+        self.count[t] += 1
+        if not forced and self.count[t] != self.budget[t]:
+            return
+        self.pos[t] = pos
+        self.back.release()
+        if not self.go[t].acquire(timeout=self.TIMEOUT):
+            raise _Abort()      # the harness is gone
+        # (when the harness abandons the schedule - ``close`` - the thread simply runs on to its end: nothing is
+        #  ever raised out of a trace function)
+
+    def block(self, t, lock):
+        self.blocked[t] = lock
+        try:
+            self.pause(t, ("waits-for-lock",), forced=True)
+        finally:
+            self.blocked[t] = None
+
+    def _tracers(self, t):
+        import dis
+        want_op = self.gran == "opcode"
+        files, codes, opname = self.files, self._codes, dis.opname
+
+        def local(frame, event, arg):
+            if self.muted[t] or self.aborting:
+                return local
+            if want_op:
+                if event == "opcode":
+                    code = frame.f_code
+                    raw = codes.get(code)
+                    if raw is None:
+                        raw = codes[code] = code.co_code
+                    op = opname[raw[frame.f_lasti]]
+                    if op not in _INVISIBLE_OPS:
+                        self.pause(t, (code.co_name, frame.f_lineno, op))
+            elif event == "line":
+                self.pause(t, (frame.f_code.co_name, frame.f_lineno))
+            return local
+
+        def glob(frame, event, arg):
+            if frame.f_code.co_filename in files:
+                if want_op:
+                    frame.f_trace_opcodes = True
+                return local
+            return None
+        return glob
+
+    def _worker(self, t, target):
+        import sys
+        self.tls.t = t
+        try:
+            if not self.go[t].acquire(timeout=self.TIMEOUT) or self.aborting:
+                return
+            if self.gran == "opcode":
+                _warm_opcode_tracing()
+            sys.settrace(self._tracers(t))
+            try:
+                target(t)
+            finally:
+                sys.settrace(None)
+        except _Abort:
+            pass
+        except BaseException as e:
+            self.err[t] = "%s: %s" % (type(e).__name__, str(e)[:100])
+        finally:
+            self.count[t] += 1
+            self.pos[t] = ("end",)
+            self.done[t] = True
+            if not self.aborting:
+                try:
+                    self.back.release()
+                except RuntimeError:
+                    pass
+
+    # ---- running in the harness -----------------------------------------------------------
+    def start(self, target):
+        import threading
+        for t in range(self.k):
+            th = threading.Thread(target=self._worker, args=(t, target), daemon=True, name="c15-k1p-%d" % t)
+            self.threads.append(th)
+            th.start()
+
+    def enabled(self, t):
+        return (not self.done[t]) and (self.blocked[t] is None or self.blocked[t].free_for(t))
+
+    def run(self, t, points=0):
+        """let thread t run past ``points`` points (0: up to its body / a lock wait / its end); returns the number
+        of points it reached"""
+        self.started[t] = True
+        self.count[t], self.budget[t] = 0, points
+        self.go[t].release()
+        if not self.back.acquire(timeout=self.TIMEOUT):
+            raise RuntimeError("thread %d did not hand control back (waiting on something the scheduler does not "
+                               "control?) after %r" % (t, self.pos[t]))
+        return self.count[t]
+
+    def close(self):
+        """abandon the schedule: the threads still parked run to their ends one after the other, without further
+        points and with every lock granted (whatever they leave behind is reset by the caller)"""
+        self.aborting = True
+        for t, th in enumerate(self.threads):
+            if th.is_alive():
+                try:
+                    self.go[t].release()
+                except RuntimeError:
+                    pass
+                th.join(timeout=30)
+        if any(th.is_alive() for th in self.threads):
+            raise RuntimeError("scheduled thread could not be unwound")
+
+
+def _fmt_pos(pos):
+    return ":".join(str(x) for x in pos)
+
+
+_RUN_LENGTHS = {}        # (part, decisions so far) -> number of points of the un-pre-empted run that follows
+_ANY = 1 << 20
+
+
+def k1p_preemptive(ctx):
+    """k real threads run ``with _patched_build_char_map(): body`` under a controlled scheduler that may switch
+    threads before every line (every shared-state byte-code operation) of the library module, i.e. also in the
+    middle of __enter__ / __exit__.  Every schedule with at most ``bound`` pre-emptions inside __enter__ / __exit__
+    (switches away from a thread that could have continued there; switches at a thread that is at its body, waits
+    for the lock or has ended are free) is explored: the decisions are which thread runs next and at which of the
+    points of its run it is pre-empted.  Oracles, from the property
+    text - the same as K1's:
+      * the body of a thread (its page extraction) finds the patch in force, whatever the others are doing;
+      * after every thread has left, each attribute of the pypdf char-map modules IS the object it was before,
+        calling it patches nothing, and the library's own module-level bookkeeping is what it was;
+      * no schedule deadlocks, no enter / exit raises, a body's exception reaches its thread."""
+    import threading
+    pe = _pe()
+    P = _pristine()
+    api, gran = ctx.params["api"], ctx.params["gran"]
+    k, bound, nfail = ctx.params["k"], ctx.params["bound"], ctx.params["nfail"]
+    # threads are interchangeable, so which of them fail is decided up to renaming: the first ``nfail``
+    fails = [t < nfail for t in range(k)]
+    # partition of the schedule space: thread that starts / pre-emption point of the first run modulo m
+    start = ctx.params.get("start")
+    slice_r, slice_m = ctx.params.get("slice", (0, 1))
+    excl = ctx.perturb != "lock_excludes_nothing"
+    lock_t, rlock_t = type(threading.Lock()), type(threading.RLock())
+    lengths = _RUN_LENGTHS.setdefault((S.REPO, api, gran, k, bound, nfail, ctx.perturb), {})
+
+    with contextlib.ExitStack() as st:
+        probes, fake_snap, call_installed = _charmap_layout(ctx, st, api, P)
+        sched = _Sched(k, gran, [pe.__file__])
+        # every lock the module keeps at module level (whatever its name) becomes scheduler-aware
+        sync = {}
+        for n, v in vars(pe).items():
+            if isinstance(v, (lock_t, rlock_t)):
+                sync[n] = _SchedLock(sched, isinstance(v, rlock_t), excl)
+            elif isinstance(v, (threading.Condition, threading.Semaphore, threading.Event, threading.Barrier)):
+                raise RuntimeError("synchronisation primitive %s (%s) is not modelled by the scheduler"
+                                   % (n, type(v).__name__))
+        if sync:
+            st.enter_context(ctx.stub(pe, **sync))
+        lib_before = _lib_state(pe)
+        propagated = [False] * k
+
+        def target(t):
+            try:
+                with pe._patched_build_char_map():
+                    sched.pause(t, ("body",), forced=True)
+                    sched.muted[t] = True
+                    try:
+                        bare = [name for mod, name, orig in probes if getattr(mod, name) is orig]
+                        depth = call_installed() if (probes and api in ("new", "legacy")) else None
+                    finally:
+                        sched.muted[t] = False
+                    sched.reports.append((t, bare, depth))
+                    if fails[t]:
+                        raise _BodyFailed("body of thread %d failed" % t)
+            except _BodyFailed:
+                propagated[t] = True
+
+        runs = []                   # "T0 x12 start -> _patched_build_char_map:544"
+        decisions = []
+        phase = [0] * k             # 0 not started, 1 in __enter__, 2 at its body, 3 in __exit__
+        since = [0] * k             # points reached since the phase began
+        cur, used, cut = None, 0, False
+
+        def pick(n):
+            v = ctx.pick("d%d" % len(decisions), n)
+            decisions.append(v)
+            return v
+
+        def info():
+            return {"schedule": runs[-24:], "preemptions": used,
+                    "at": ["T%d %s" % (t, _fmt_pos(sched.pos[t])) for t in range(k)]}
+
+        try:
+            sched.start(target)
+            while not all(sched.done):
+                enabled = [t for t in range(k) if sched.enabled(t)]
+                if not enabled:
+                    ctx.fail("deadlock-in-critical-section", **info())
+                # threads that have not started are interchangeable when their bodies behave alike
+                cand = [t for t in enabled if sched.started[t] or
+                        not any(not sched.started[u] and fails[u] == fails[t] for u in range(t))]
+                if cut:
+                    # cur was stopped at a point where it could have continued: somebody else runs now
+                    cand = [t for t in cand if t != cur]
+                    if not cand:
+                        ctx.assume(False)       # nobody to switch to here: the same as the longer run
+                    used += 1
+                elif cur in cand:
+                    # cur is at its body (the page extraction: long-running, threads overlap there): switching is
+                    # free, like at a lock wait or at a thread's end
+                    cand.remove(cur)
+                    cand.insert(0, cur)
+                t = cand[pick(len(cand))]
+                if cur is None and start is not None and t != start:
+                    ctx.assume(False)           # another part
+                # -- where is t pre-empted? 0: nowhere (runs to its body / a lock wait / its end) ---------
+                came_from = sched.pos[t]
+                may_cut = used < bound and any(not sched.done[u] for u in range(k) if u != t)
+                if not may_cut:
+                    n = sched.run(t)
+                    j = 0
+                elif ctx.concrete:
+                    j = pick(_ANY)
+                    n = sched.run(t, j)
+                else:
+                    key = tuple(decisions)
+                    total = lengths.get(key)
+                    if total is None:
+                        # first visit of this decision node: the un-pre-empted run tells how many points there are
+                        n = total = lengths[key] = sched.run(t)
+                        j = pick(total)
+                        if j != 0:
+                            raise RuntimeError("run-length table out of step with the exploration order")
+                    else:
+                        j = pick(total)
+                        n = sched.run(t, j)
+                if cur is None and j % slice_m != slice_r:
+                    ctx.assume(False)           # another part
+                cut = j != 0
+                if cut and (n != j or sched.done[t] or sched.blocked[t] is not None or sched.pos[t] == ("body",)):
+                    raise RuntimeError("pre-emption point %d of the run not reached (%d points)" % (j, n))
+                runs.append("T%d x%d %s -> %s" % (t, n, _fmt_pos(came_from), _fmt_pos(sched.pos[t])))
+                if len(runs) > ctx.params.get("max_runs", 400):
+                    ctx.fail("critical-section-does-not-terminate", **info())
+                cur = t
+                if phase[t] == 0:
+                    phase[t], since[t] = 1, 0
+                if came_from == ("body",):
+                    phase[t], since[t] = 3, 0
+                since[t] += n
+                if (not sched.done[t]) and sched.pos[t] == ("body",):
+                    phase[t], since[t] = 2, 0
+                    if ctx.perturb == "expect_enter_and_exit_atomic":
+                        # twin: demands that nobody is in the middle of __enter__ / __exit__ when a thread arrives
+                        # at its body - refuted exactly by the schedules that pre-empt inside the two
+                        mid = [u for u in range(k) if u != t and not sched.done[u] and phase[u] in (1, 3)
+                               and since[u] >= 2]
+                        ctx.require(not mid, "twin-preempted-inside-enter-or-exit", mid=mid, **info())
+                while sched.reports:
+                    u, bare, depth = sched.reports.pop(0)
+                    ctx.require(not bare, "patch-absent-while-inside-critical-section", thread=u, unpatched=bare,
+                                **info())
+                    if depth is not None:
+                        ctx.require(depth != 0 and depth != -1, "patched-function-not-effective", thread=u,
+                                    depth=depth, **info())
+            # -- everybody has left -------------------------------------------------------------
+            errs = {t: e for t, e in enumerate(sched.err) if e}
+            ctx.require(not errs, "enter-or-exit-raised", errors=errs, **info())
+            ctx.require(propagated == fails, "body-exception-swallowed", propagated=propagated, **info())
+            left = P.changed(CHARMAP_MODULES) if api == "installed" else []
+            for m, was in fake_snap:
+                left += [(m.__name__, a) for a in set(vars(m)) | set(was)
+                         if vars(m).get(a, _MISSING) is not was.get(a, _MISSING)]
+            ctx.require(not left, "wrapper-left-installed-after-all-threads-left", residue=left, **info())
+            if api in ("new", "legacy"):
+                ctx.require(call_installed(max) == 0, "original-not-back-in-force", **info())
+            lib_after = _lib_state(pe)
+            ctx.require(lib_after == lib_before, "library-module-state-not-restored",
+                        changed=_state_diff(lib_before, lib_after), **info())
+        finally:
+            try:
+                sched.close()
+            finally:
+                P.reset()
+
+
+K1P_APIS = ("installed", "new", "legacy")
+
+
+def _k1p_parts(tier):
+    parts = []
+
+    def add(gran, k, bound, slices=None, by_start=True, nfails=None):
+        for api in (slices or K1P_APIS):
+            m = (slices or {}).get(api, 1)
+            for nfail in (nfails or range(k + 1)):
+                # threads differ only when some but not all bodies fail: then the thread that starts is a choice
+                # (up to renaming: the first failing one or the first non-failing one)
+                starts = [0, nfail] if (by_start and 0 < nfail < k) else [None]
+                for s0 in starts:
+                    for r in range(m):
+                        p = {"api": api, "gran": gran, "k": k, "bound": bound, "nfail": nfail}
+                        if s0 is not None:
+                            p["start"] = s0
+                        if m > 1:
+                            p["slice"] = (r, m)
+                        parts.append(p)
+    if tier == "quick":
+        add("line", 2, 1, by_start=False)
+        add("opcode", 2, 1, by_start=False)
+        add("line", 2, 2, {"new": 4})
+        add("line", 3, 1, {"new": 2}, nfails=(0,))
+    else:
+        add("line", 2, 2, {"installed": 2, "new": 4, "legacy": 2})
+        add("opcode", 2, 2, {"installed": 6, "new": 6, "legacy": 6})
+        add("line", 3, 1, {"installed": 2, "new": 2, "legacy": 2})
+        add("opcode", 3, 1, {"installed": 3, "new": 3, "legacy": 3})
+    return parts
 
 
 # ---------------------------------------------------------------------------------------
@@ -1254,7 +1704,34 @@ KERNELS = [
            assumptions=["a thread's critical section is entered and left atomically (generator-based context "
                         "manager: __enter__ / __exit__ are the observable events)"],
            outside=["pre-emption inside __enter__/__exit__ (between getattr and setattr, between the two modules "
-                    "of the >=6.6 layout)", "randomised pre-emptive schedules of real threads"],
+                    "of the >=6.6 layout): K1p", "randomised pre-emptive schedules of real threads"],
+           timeout={"quick": 100, "thorough": 1000}),
+    Kernel("K1p", "k real threads through `with _patched_build_char_map(): body` under a controlled scheduler that "
+                  "pre-empts INSIDE __enter__ / __exit__ (before every line / every shared-state byte-code operation "
+                  "of the module): all schedules with a bounded number of pre-emptions; patch in force in every body, "
+                  "every pypdf attribute IS the original and the module bookkeeping is back after all have left, no "
+                  "deadlock",
+           k1p_preemptive, targets=_t_k1, parts=_k1p_parts, strength="structure", max_depth=6000,
+           bounds={"quick": {"threads": "2 (3: line, >=6.6 layout, no failing body)",
+                             "preemptions": "2 (line, k=2, >=6.6 layout) / 1 (otherwise)"},
+                   "thorough": {"threads": "2 / 3", "preemptions": "2 (k=2, line and opcode) / 1 (k=3, line and opcode)"}},
+           perturb=[("expect_enter_and_exit_atomic", {"api": "new", "gran": "line", "k": 2, "bound": 1, "nfail": 0}),
+                    ("lock_excludes_nothing", {"api": "new", "gran": "line", "k": 2, "bound": 1, "nfail": 0}),
+                    ("lock_excludes_nothing", {"api": "installed", "gran": "opcode", "k": 2, "bound": 1, "nfail": 1})],
+           choices=["thread taking each step (a step = up to the next line / shared-state byte-code operation of "
+                    "pdf_extractor.py, the body, or a wait for the module's lock)", "number of failing bodies",
+                    "pypdf layout: installed / >=6.6 / <6.6", "granularity: line / byte-code operation"],
+           stubs=["every threading.Lock / RLock held at module level by pdf_extractor -> scheduler-aware lock with the "
+                  "same exclusion semantics (a waiting thread is descheduled instead of blocking the process)",
+                  "sys.settrace in the scheduled threads (switching points only; nothing is altered)",
+                  "layouts other than the installed one: as K1"],
+           assumptions=["operations on the evaluation stack / fast locals / freshly built objects are thread-local "
+                        "(no switching point before them at byte-code granularity)",
+                        "C-level calls (getattr, setattr, list.append, list.clear) are atomic, as under the GIL",
+                        "threads are interchangeable: which bodies fail is fixed up to renaming"],
+           outside=["schedules with more pre-emptions inside __enter__/__exit__ than the bound (switches at a body, "
+                    "a lock wait or a thread's end are not counted)", "more than 3 threads",
+                    "pre-emption inside pypdf / the page extraction itself (the body is one step)"],
            timeout={"quick": 100, "thorough": 1000}),
     Kernel("K2a", "_ttf_get_glyph_features after a history of calls == the same call in a fresh process "
                   "(symbolic glyph-id lists), and == the font's own tables",
@@ -1312,7 +1789,9 @@ KERNELS = [
 META = {
     "level_text": "The real _patched_build_char_map context manager is driven through every enter/exit schedule of "
                   "up to 3 (4) concurrent instances with failing bodies, on the installed pypdf and on both other "
-                  "module layouts; the font-feature memo is executed on symbolic glyph-id lists and the AES round-key "
+                  "module layouts, and by 2 (3) real threads under a controlled scheduler through every schedule with "
+                  "at most 2 (3) pre-emptions placed before any line / shared-state byte-code operation inside "
+                  "__enter__ / __exit__; the font-feature memo is executed on symbolic glyph-id lists and the AES round-key "
                   "LRU on fully symbolic keys (the solver decides which requests coincide) and each answer is compared "
                   "with the unmemoised computation; all singles and ordered pairs of a 16-entry and all triples of a 10-entry (thorough: all "
                   "triples of a 26-entry) "
@@ -1320,10 +1799,12 @@ META = {
                   "document with an isolated baseline and the patched pypdf attributes, the PDF extractor's module-level "
                   "bookkeeping, archive configuration, temp root and fd count are compared with a snapshot; every PDF "
                   "fixture is extracted twice from the same state.",
-    "level_note": "Granularity of schedules is enter/exit of the critical section; pre-emption inside __enter__/__exit__ "
-                  "and real-thread runs are outside. The one-way AES fallback patch is recorded as an observation. "
+    "level_note": "K1 schedules at enter/exit granularity; K1p pre-empts inside __enter__/__exit__ with a bounded number of "
+                  "pre-emptions (module-level locks replaced by scheduler-aware ones); unbounded pre-emption and "
+                  "free-running real-thread runs are outside. The one-way AES fallback patch is recorded as an observation. "
                   "Trusted: the insertion-ordered table model of OrderedDict (cross-checked by concrete re-execution).",
-    "technique": "bounded-exhaustive schedule exploration of the real context manager; symbolic execution of the memo "
+    "technique": "bounded-exhaustive schedule exploration of the real context manager (enter/exit events; "
+                 "pre-emption-bounded controlled scheduling of real threads at line / byte-code granularity); symbolic execution of the memo "
                  "functions on z3 Int / bit-vector proxies with per-path equivalence queries against the unmemoised "
                  "computation; bounded-exhaustive extraction histories against isolated baselines and a state snapshot",
 }
